@@ -9,9 +9,14 @@ Behaviours of a target:
   hang        connect() never returns until a signal arrives (then EINTR)              -> "connect: timed out"
   refuse      connect() fails with ECONNREFUSED (xrcmd retries with back-off)          -> "connect: Connection refused"
   mute        rsh peer accepts, reads the request, never answers the handshake         -> "read: protocol failure: timed out"
+  noback      rsh peer accepts, reads the port of the stderr back channel, never connects back and never
+              answers: the worker sits in xrcmd's xpoll for the circuit setup          -> "rcmd: xpoll (setting up stderr): ..."
   talkhang    rsh peer answers, sends one line, keeps the connection open (needs -u)   -> "command timeout"
   chatty      local command (exec module) that prints a line every 0.2 s for ever (needs -u): when the deadline
               passes the worker is relaying output, not sitting in xpoll                -> "command timeout"
+  dies        local command (exec module) that prints a line and is then killed by a signal (SIGKILL, SIGSEGV)
+                                                                                        -> "... killed by signal N"
+  exits       local command (exec module) that prints a line and exits with status 3    -> "... exited with exit code 3"
 """
 import concurrent.futures
 import os
@@ -24,27 +29,70 @@ import time
 from vlib.common import HARNESS
 
 WDOG_POLL = 2
-NET = "127.9.7."
-TALK = [NET + str(i) for i in range(1, 7)]
-MUTE = [NET + str(i) for i in range(7, 9)]
-TALKHANG = [NET + str(i) for i in range(9, 11)]
-SHIMMED = [NET + str(i) for i in range(11, 17)]      # nobody listens there; the shim decides
+NET = "127.9.7."            # the preferred /24; a Peer takes another one (127.9.K.) when somebody else listens there
+
+
+def role(addr):
+    """behaviour of an address = its last octet (the /24 is chosen per run, see Peer)"""
+    try:
+        k = int(addr.rsplit(".", 1)[1])
+    except (ValueError, IndexError):
+        return None
+    return ("talk" if 1 <= k <= 6 else "mute" if 7 <= k <= 8 else "talkhang" if 9 <= k <= 10 else
+            "shimmed" if 11 <= k <= 16 else "blackhole" if 17 <= k <= 18 else "noback" if 19 <= k <= 20 else None)
+
+
+def addrs(net, kind):
+    return [net + str(k) for k in range(1, 21) if role(net + str(k)) == kind]
 
 
 class Peer:
-    """scripted rsh server; behaviour is fixed per address, so cases can run in parallel"""
+    """scripted rsh server; behaviour is fixed per address, so cases can run in parallel.  Several checks may run on
+    one machine at the same time (parallel sweeps): each Peer owns a /24 of its own inside 127.9.0.0/16 -- the first
+    one in which it can listen on every address it needs."""
 
-    def __init__(self):
+    def __init__(self, prefer=NET):
         self.log = []          # (addr, request bytes)
         self.lock = threading.Lock()
         self.socks = []
         self.held = []
-        for a in TALK + MUTE + TALKHANG:
+        self.net = None
+        cands = [prefer] + ["127.9.%d." % (7 + (os.getpid() * 31 + j * 17) % 241) for j in range(1, 60)]
+        last = None
+        for net in cands:
+            try:
+                self.listen_on(net)
+                self.net = net
+                break
+            except OSError as e:
+                last = e
+                self.close()
+                self.socks, self.held = [], []
+        if self.net is None:
+            raise last or OSError("no free 127.9.K.0/24")
+
+    def listen_on(self, net):
+        for a in addrs(net, "talk") + addrs(net, "mute") + addrs(net, "talkhang") + addrs(net, "noback"):
             s = socket.socket()
+            self.socks.append(s)
             s.setsockopt(socket.SOL_SOCKET, socket.SO_REUSEADDR, 1)
             s.bind((a, 514))
             s.listen(64)
+        for a in addrs(net, "blackhole"):
+            # a listener that never accepts and whose backlog is full: the kernel drops further SYNs, so a connect()
+            # to it blocks in the kernel (no shim involved) until a signal interrupts it
+            s = socket.socket()
             self.socks.append(s)
+            s.setsockopt(socket.SOL_SOCKET, socket.SO_REUSEADDR, 1)
+            s.bind((a, 514))
+            s.listen(0)
+            for _ in range(3):
+                c = socket.socket()
+                c.setblocking(False)
+                c.connect_ex((a, 514))
+                self.held.append(c)
+        for s, a in zip(self.socks, addrs(net, "talk") + addrs(net, "mute") + addrs(net, "talkhang") +
+                        addrs(net, "noback")):
             threading.Thread(target=self.accept_loop, args=(s, a), daemon=True).start()
 
     def accept_loop(self, s, addr):
@@ -66,6 +114,9 @@ class Peer:
                     return
                 data += b
             port = data.split(b"\0")[0]
+            if role(addr) == "noback":
+                c.recv(1)                   # never connect back, never answer; wait until pdsh gives up and closes
+                return
             if port.isdigit():              # -s: stderr back channel from a reserved port
                 for lp in range(1023, 511, -1):
                     try:
@@ -83,11 +134,11 @@ class Peer:
                 data += b
             with self.lock:
                 self.log.append((addr, data))
-            if addr in MUTE:
+            if role(addr) == "mute":
                 c.recv(1)                   # never answer; wait until pdsh gives up and closes
                 return
             c.sendall(b"\0")
-            if addr in TALKHANG:
+            if role(addr) == "talkhang":
                 c.sendall(("first-%s\n" % addr).encode())
                 c.recv(1)                   # hold the stream open
                 return
@@ -109,8 +160,11 @@ class Peer:
             return [(a, d) for a, d in self.log if token.encode() in d]
 
     def close(self):
-        for s in self.socks:
-            s.close()
+        for s in self.socks + self.held:
+            try:
+                s.close()
+            except OSError:
+                pass
 
 
 def build_shim(ctx):
@@ -127,6 +181,7 @@ def make_helper(ctx):
     helper = os.path.join(ctx.scratch, "c07exec.sh")
     with open(helper, "w") as f:
         f.write("#!/bin/sh\ncase $1 in\n c*) while :; do echo x-$1; sleep 0.2; done;;\n"
+                " d0*) echo x-$1; kill -9 $$;;\n d1*) echo x-$1; kill -SEGV $$;;\n x*) echo x-$1; exit 3;;\n"
                 " i*) trap '' TERM; echo x-$1; sleep %d;;\n z*) exec <&- >&- 2>&-; sleep %d;;\n"
                 " *) echo out-$1;;\nesac\n" % (IMMORTAL_LIFE, IMMORTAL_LIFE))
     os.chmod(helper, 0o755)
@@ -145,7 +200,7 @@ def teardown_cases():
             {"id": 901, "token": "tokclo0901", "ct": 1, "ut": 1, "fanout": 2, "hosts": [("e0", "exec"), ("z0", "closer")]}]
 
 
-def gen_case(rng, idx, thorough, must=None):
+def gen_case(rng, idx, thorough, must=None, net=NET):
     """one mixed run; every timing parameter small"""
     ct = rng.choice([1, 2])
     ut = 2 if must in ("talkhang", "chatty") else (rng.choice([0, 0, 2]) if thorough else rng.choice([0, 2]))
@@ -153,11 +208,12 @@ def gen_case(rng, idx, thorough, must=None):
     nexec = rng.randrange(1, 4)
     for k in range(nexec):
         hosts.append(("e%d" % k, "exec"))
-    pool = {"talk": list(TALK), "mute": list(MUTE), "talkhang": list(TALKHANG), "hang": list(SHIMMED[:3]),
-            "refuse": list(SHIMMED[3:])}
+    sh = addrs(net, "shimmed")
+    pool = {"talk": addrs(net, "talk"), "mute": addrs(net, "mute"), "talkhang": addrs(net, "talkhang"),
+            "hang": sh[:3], "refuse": sh[3:], "blackhole": addrs(net, "blackhole")}
     pool["chatty"] = ["c0", "c1"]
-    kinds = ["talk", "hang", "mute", "refuse"] + (["talkhang", "chatty"] if ut > 0 else [])
-    must = must or rng.choice(["hang", "hang", "mute", "refuse"])   # every case has a failing host
+    kinds = ["talk", "hang", "mute", "refuse", "blackhole"] + (["talkhang", "chatty"] if ut > 0 else [])
+    must = must or rng.choice(["hang", "hang", "mute", "refuse", "blackhole"])   # every case has a failing host
     chosen = [must] + [rng.choice(kinds) for _ in range(rng.randrange(1, 4))]
     for kd in chosen:
         if pool[kd]:
@@ -167,7 +223,48 @@ def gen_case(rng, idx, thorough, must=None):
     n = len(hosts)
     fan = rng.choice([n, n + 1, max(2, n - 1)]) if thorough else n
     return {"id": idx, "token": "tok%04d%04d" % (idx, rng.randrange(10000)), "ct": ct, "ut": ut, "fanout": fan,
-            "hosts": hosts}
+            "hosts": hosts, "net": net}
+
+
+def pinned_cases(net=NET):
+    """The cases EVERY run executes (no random draw decides whether a fault kind, a timeout option or a position
+    relative to the fanout window is covered): each fault kind of the real transport alone next to healthy hosts with
+    room for everybody; then the faulty host FIRST / LAST with fanout 1 (the healthy ones queue behind it / it queues
+    behind them), -t only, -u only (connect timeout left at a value no fault needs), both."""
+    first = {"hang": addrs(net, "shimmed")[0], "refuse": addrs(net, "shimmed")[3], "mute": addrs(net, "mute")[0],
+             "talkhang": addrs(net, "talkhang")[0], "blackhole": addrs(net, "blackhole")[0], "chatty": "c0",
+             "dies": "d00", "dies-segv": "d10", "exits": "x0", "noback": addrs(net, "noback")[0]}
+    talk = addrs(net, "talk")
+    out = []
+
+    def add(kind, ct, ut, fan, pos, sopt=False):
+        healthy = [("e0", "exec"), (talk[len(out) % len(talk)], "talk"), ("e1", "exec")]
+        bad = (first[kind], "dies" if kind.startswith("dies") else kind)
+        hosts = [bad] + healthy if pos == "first" else healthy + [bad] if pos == "last" else healthy[:1] + [bad] + healthy[1:]
+        i = len(out)
+        out.append({"id": 800 + i, "token": "tokpin%04d" % (800 + i), "ct": ct, "ut": ut,
+                    "fanout": len(hosts) if fan is None else fan, "hosts": hosts, "net": net, "pinned": True,
+                    "sopt": sopt})
+    for kind in ("hang", "blackhole", "mute", "refuse"):
+        add(kind, 1, 0, None, "mid")                     # -t only
+    for kind in ("talkhang", "chatty"):
+        add(kind, 10, 2, None, "mid")                    # -u only (the default connect timeout)
+    add("hang", 1, 2, 1, "first")                        # both, fanout 1, the hanging host holds the only slot first
+    add("blackhole", 2, 0, 1, "last")
+    add("mute", 2, 2, 2, "first")
+    add("talkhang", 1, 2, 1, "first")
+    # a command that dies (killed by a signal) or fails (exit status 3): reported under its name, the others unharmed
+    add("dies", 1, 0, None, "mid")
+    add("dies-segv", 1, 2, 1, "first")
+    add("exits", 1, 0, 2, "last")
+    # the stderr back channel of the rsh protocol (xrcmd's circuit setup) with a peer that never connects back
+    add("noback", 1, 0, None, "mid")
+    add("noback", 2, 2, 1, "first")
+    # mixed transports the other way round: -R exec is the default, one `rsh:` host hangs in connect; each transport's
+    # option post-processing runs, the built-in connect timeout (10 s) must still abandon the rsh host
+    add("hang", 10, 0, None, "mid")
+    out[-1]["rdefault"] = "exec"
+    return out
 
 
 REFUSE_OBSERVED = 8.0     # xrcmd's back-off 1,2,4,8,16 s with every sleep after the deadline cut to one watchdog period
@@ -180,13 +277,15 @@ def expected_wall(case, refuse=None):
     ct, ut = case["ct"], case["ut"]
     per = 0.5
     for _, kd in case["hosts"]:
-        if kd in ("hang", "mute"):
+        if kd in ("hang", "mute", "blackhole", "noback"):
             per = max(per, ct + WDOG_POLL)
         elif kd == "refuse":
             per = max(per, refuse if refuse is not None else ct + WDOG_POLL)
         elif kd in ("talkhang", "chatty") + TEARDOWN_KINDS:
             per = max(per, ut + WDOG_POLL + 0.5)
     rounds = 1 if case["fanout"] >= len(case["hosts"]) else 2
+    # (with fanout < N the faulty hosts are spread over at most two rounds in every generated case: at most 4 faulty
+    # hosts, fanout >= N - 1 or exactly one faulty host)
     return per * rounds
 
 
@@ -197,8 +296,18 @@ def run_case(exe, shim, helper, case, scratch, hard_timeout=None):
             hard_timeout = expected_wall(case) + 4.0 + 1.0     # the bound, the slack, and 1 s more
     script = ";".join("%s=%s" % (a, "hang" if kd == "hang" else "refuse:0") for a, kd in case["hosts"]
                       if kd in ("hang", "refuse"))
-    words = ",".join(("exec:" + a) if kd in ("exec", "chatty") + TEARDOWN_KINDS else a for a, kd in case["hosts"])
+    local = ("exec", "chatty", "dies", "exits") + TEARDOWN_KINDS
+    if case.get("rdefault") == "exec":
+        # the other way round: exec is the default transport (-R exec), the network hosts carry the `rsh:` prefix; -t
+        # cannot be given with -R exec, so the connect timeout is the built-in default (case["ct"] says what it is)
+        words = ",".join(a if kd in local else "rsh:" + a for a, kd in case["hosts"])
+    else:
+        words = ",".join(("exec:" + a) if kd in local else a for a, kd in case["hosts"])
+    # (stderr travels on a connection of its own by default in this build: opt.c separate_stderr = true, there is
+    # no -s option; so every rsh target goes through xrcmd's circuit setup)
     argv = [exe, "-R", "rsh", "-t", str(case["ct"]), "-f", str(case["fanout"])]
+    if case.get("rdefault") == "exec":
+        argv = [exe, "-R", "exec", "-f", str(case["fanout"])]
     if case["ut"] > 0:
         argv += ["-u", str(case["ut"])]
     argv += ["-w", words, helper, "%h", case["token"]]
@@ -219,9 +328,11 @@ def run_case(exe, shim, helper, case, scratch, hard_timeout=None):
 # what the property asks for is a report under the host's own name; the texts are xrcmd.c's / dsh.c's.  A refusing
 # host is reported as refused when its retries end before the connect timeout, and as timed out when the
 # connect timeout ends the retries (repaired xrcmd.c: an interrupted back-off sleep is the expired timeout)
-REPORT = {"hang": (": connect: timed out",), "mute": (": read: protocol failure: timed out",),
+REPORT = {"hang": (": connect: timed out",), "blackhole": (": connect: timed out",),
+          "noback": (": rcmd: xpoll (setting up stderr): Interrupted system call",), "mute": (": read: protocol failure: timed out",),
           "refuse": (": connect: Connection refused", ": connect: timed out"), "talkhang": (": command timeout",),
-          "chatty": (": command timeout",), "immortal": (": command timeout",)}
+          "chatty": (": command timeout",), "immortal": (": command timeout",),
+          "dies": (": ... killed by signal N",), "exits": (": ... exited with exit code 3",)}
 
 
 def judge(case, r, peer, slack):
@@ -229,7 +340,14 @@ def judge(case, r, peer, slack):
     fun, tim = [], []
     if r["rc"] is None:
         waiters = [(a, kd) for a, kd in case["hosts"] if kd in TEARDOWN_KINDS]
-        if waiters and case["ut"] > 0:
+        errl = r["stderr"].splitlines()
+        # the finding's signature only if the run looks like the finding: every SIGTERM-ignoring host has been
+        # reported as timed out under its name (pdsh got as far as the teardown), nothing but such hosts and healthy
+        # ones in the case
+        told = all(any(re.match(r"^pdsh@[^:]*: %s: \S" % re.escape(a), l) for l in errl)
+                   for a, kd in waiters if kd == "immortal")
+        pure = all(kd in TEARDOWN_KINDS + ("exec",) for _, kd in case["hosts"])
+        if waiters and case["ut"] > 0 and told and pure:
             fun.append(("real:no-return:teardown-waits-for-command",
                         "pdsh -u %d still runs after %.1f s (the timeouts plus the watchdog period allow %.1f s): %s; "
                         "the command timeout does not apply to the teardown (exec_destroy -> pipecmd_wait -> "
@@ -261,7 +379,7 @@ def judge(case, r, peer, slack):
         else:
             if kd == "talkhang" and "%s: first-%s" % (a, a) not in outl:
                 fun.append(("real:output-lost", "%s: the line sent before the hang was not relayed" % a))
-            if kd == "chatty" and "%s: x-%s" % (a, a) not in outl:
+            if kd in ("chatty", "dies", "exits") and "%s: x-%s" % (a, a) not in outl:
                 fun.append(("real:output-lost", "%s: nothing of what it printed before the deadline was relayed" % a))
             want = " | ".join(a + w for w in REPORT[kd])
             # the property: reported on stderr under its own name -- any line with pdsh's prefix that names the
@@ -289,7 +407,11 @@ def replay_case(ctx, cov, case):
     repo = ctx.repo_build()
     if not repo:
         return
-    peer = Peer()
+    net = case.get("net", NET)
+    peer = Peer(prefer=net)
+    if peer.net != net:         # somebody else listens there now: the same case in the /24 this run got
+        case = dict(case, net=peer.net,
+                    hosts=[(peer.net + a[len(net):] if a.startswith(net) else a, kd) for a, kd in case["hosts"]])
     try:
         shim = build_shim(ctx)
         helper = make_helper(ctx)
@@ -317,7 +439,7 @@ def run_part(ctx, cov, quick):
     try:
         peer = Peer()
     except OSError as e:
-        summary["skipped"] = "cannot listen on %s1:514 (%s)" % (NET, e)
+        summary["skipped"] = "cannot listen on port 514 of any 127.9.K.0/24 tried (%s)" % (e,)
         ctx.log("real rsh part skipped: %s" % summary["skipped"])
         return
     try:
@@ -326,23 +448,34 @@ def run_part(ctx, cov, quick):
             return
         helper = make_helper(ctx)
         exe = os.path.join(repo, "src/pdsh/pdsh")
-        n = 8 if quick else 40
-        fixed = ["hang", "mute", "refuse", "talkhang", "chatty", "hang"]
-        cases = teardown_cases() + \
-            [gen_case(ctx.rng, i, not quick, must=fixed[i] if i < len(fixed) else None) for i in range(n)]
+        n = 4 if quick else 40
+        fixed = ["hang", "mute", "refuse", "talkhang", "chatty", "blackhole"]
+        cases = teardown_cases() + pinned_cases(peer.net) + \
+            [gen_case(ctx.rng, i, not quick, must=fixed[i] if i < len(fixed) and not quick else None, net=peer.net)
+             for i in range(n)]
+        summary["net"] = peer.net
+        summary["pinned"] = len(pinned_cases(peer.net))
         slack = 4.0
 
         def one(c):
             return c, run_case(exe, shim, helper, c, ctx.scratch)
         with concurrent.futures.ThreadPoolExecutor(max_workers=6) as ex:
             results = list(ex.map(one, cases))
+        confirmed = {"hung": 0, "late": 0}     # a second run, alone, showed the same: no need to re-run the rest
         for c, r in results:
             fun, tim = judge(c, r, peer, slack)
-            if tim and not fun and not all(sg.endswith(":refused-connect-retried") for sg, _ in tim):
-                # a loaded machine: once more, alone, before anything is said about timing
+            hung = r["rc"] is None and not any(kd in TEARDOWN_KINDS for _, kd in c["hosts"])
+            late = bool(tim) and not fun and not all(sg.endswith(":refused-connect-retried") for sg, _ in tim)
+            if (hung and confirmed["hung"] < 2) or (late and not hung and confirmed["late"] < 2):
+                # a loaded machine: once more, alone, before anything is said about timing (or about not ending
+                # within the hard limit)
                 summary["retried_for_timing"] += 1
                 r = run_case(exe, shim, helper, c, ctx.scratch)
                 fun, tim = judge(c, r, peer, slack)
+                if r["rc"] is None:
+                    confirmed["hung"] += 1
+                elif tim:
+                    confirmed["late"] += 1
             summary["runs"] += 1
             cov["evaluations"] += 1
             summary["walls"].append(r["wall"])
